@@ -1489,6 +1489,154 @@
  }
 }
 */
+/* VERIF-UNIT
+{
+ "name": "rbtree_erase_n1",
+ "props": [
+  "C16"
+ ],
+ "level": "B(1)",
+ "tier": "wip",
+ "harness": "h_rbtree_erase",
+ "defines": [
+  "EXT2_CUSTOM_MEMORY_ROUTINES",
+  "RB_N=1",
+  "RB_NEW=0"
+ ],
+ "unwind": 9,
+ "unwind_reason": "x",
+ "sources": [
+  "lib/ext2fs/rbtree.c"
+ ],
+ "functions": [
+  "lib/ext2fs/rbtree.c:ext2fs_rb_erase"
+ ],
+ "assumes": [
+  "x"
+ ],
+ "backend": "minisat",
+ "native": true,
+ "cbmc_flags": [
+  "--object-bits",
+  "10"
+ ],
+ "unwindset": {
+  "ext2fs_rb_erase.0": 2,
+  "__rb_erase_color.0": 2
+ }
+}
+*/
+/* VERIF-UNIT
+{
+ "name": "rbtree_erase_n2",
+ "props": [
+  "C16"
+ ],
+ "level": "B(2)",
+ "tier": "wip",
+ "harness": "h_rbtree_erase",
+ "defines": [
+  "EXT2_CUSTOM_MEMORY_ROUTINES",
+  "RB_N=2",
+  "RB_NEW=0"
+ ],
+ "unwind": 9,
+ "unwind_reason": "x",
+ "sources": [
+  "lib/ext2fs/rbtree.c"
+ ],
+ "functions": [
+  "lib/ext2fs/rbtree.c:ext2fs_rb_erase"
+ ],
+ "assumes": [
+  "x"
+ ],
+ "backend": "minisat",
+ "native": true,
+ "cbmc_flags": [
+  "--object-bits",
+  "10"
+ ],
+ "unwindset": {
+  "ext2fs_rb_erase.0": 3,
+  "__rb_erase_color.0": 3
+ }
+}
+*/
+/* VERIF-UNIT
+{
+ "name": "rbtree_erase_n3",
+ "props": [
+  "C16"
+ ],
+ "level": "B(3)",
+ "tier": "wip",
+ "harness": "h_rbtree_erase",
+ "defines": [
+  "EXT2_CUSTOM_MEMORY_ROUTINES",
+  "RB_N=3",
+  "RB_NEW=0"
+ ],
+ "unwind": 9,
+ "unwind_reason": "x",
+ "sources": [
+  "lib/ext2fs/rbtree.c"
+ ],
+ "functions": [
+  "lib/ext2fs/rbtree.c:ext2fs_rb_erase"
+ ],
+ "assumes": [
+  "x"
+ ],
+ "backend": "minisat",
+ "native": true,
+ "cbmc_flags": [
+  "--object-bits",
+  "10"
+ ],
+ "unwindset": {
+  "ext2fs_rb_erase.0": 3,
+  "__rb_erase_color.0": 3
+ }
+}
+*/
+/* VERIF-UNIT
+{
+ "name": "rbtree_erase_n4",
+ "props": [
+  "C16"
+ ],
+ "level": "B(4)",
+ "tier": "wip",
+ "harness": "h_rbtree_erase",
+ "defines": [
+  "EXT2_CUSTOM_MEMORY_ROUTINES",
+  "RB_N=4",
+  "RB_NEW=0"
+ ],
+ "unwind": 9,
+ "unwind_reason": "x",
+ "sources": [
+  "lib/ext2fs/rbtree.c"
+ ],
+ "functions": [
+  "lib/ext2fs/rbtree.c:ext2fs_rb_erase"
+ ],
+ "assumes": [
+  "x"
+ ],
+ "backend": "minisat",
+ "native": true,
+ "cbmc_flags": [
+  "--object-bits",
+  "10"
+ ],
+ "unwindset": {
+  "ext2fs_rb_erase.0": 4,
+  "__rb_erase_color.0": 4
+ }
+}
+*/
 #include "rb_common.h"
 
 #define IN_RANGE_REL(k, s, c) ((k) >= (s) && (k) - (s) < (c))
@@ -1517,11 +1665,8 @@ void h_rb_insert(void)
 {
 	build_rb();
 	ASSUME(IN.num >= 1 && IN.arg <= IN.real_end - IN.start && IN.num - 1 <= IN.real_end - IN.start - IN.arg);
-	if (IN.num == 1) {
-		int r = rb_mark_bmap(&BM, IN.start + IN.arg);
-		CHECK((r != 0) == ref_member(IN.arg), "mark_bmap returns the old membership of the bit");
-	} else
-		rb_mark_bmap_extent(&BM, IN.start + IN.arg, IN.num);
+	int r = rb_insert_extent(IN.arg, IN.num, BP);
+	CHECK(IN.num != 1 || (r != 0) == ref_member(IN.arg), "mark of one bit returns its old membership");
 	CHECK_TREE("insert_extent");
 	CHECK(view(verif_k) == (ref_member(verif_k) || IN_RANGE_REL(verif_k, IN.arg, IN.num)), "insert_extent: the set gains exactly [start, start+count)");
 	CHECK(BM.start == IN.start && BM.end == IN.end && BM.real_end == IN.real_end, "geometry untouched");
@@ -1544,15 +1689,8 @@ void h_rb_remove(void)
 {
 	build_rb();
 	ASSUME(IN.num >= 1 && IN.arg <= IN.real_end - IN.start && IN.num - 1 <= IN.real_end - IN.start - IN.arg);
-	if (IN.num == 1) {
-		int r = rb_unmark_bmap(&BM, IN.start + IN.arg);
-		CHECK((r != 0) == ref_member(IN.arg), "unmark_bmap returns the old membership of the bit");
-	} else if (IN.shape & 0x80) {
-		rb_unmark_bmap_extent(&BM, IN.start + IN.arg, IN.num);
-	} else {
-		int r = rb_remove_extent(IN.arg, IN.num, BP);
-		CHECK((r != 0) == ref_any_in(IN.arg, IN.num), "remove_extent returns nonzero iff some bit of the range was set");
-	}
+	int r = rb_remove_extent(IN.arg, IN.num, BP);
+	CHECK((r != 0) == ref_any_in(IN.arg, IN.num), "remove_extent returns nonzero iff some bit of the range was set (unmark of one bit: its old membership)");
 	CHECK_TREE("remove_extent");
 	CHECK(view(verif_k) == (ref_member(verif_k) && !IN_RANGE_REL(verif_k, IN.arg, IN.num)), "remove_extent: the set loses exactly [start, start+count)");
 	CHECK(BM.start == IN.start && BM.end == IN.end && BM.real_end == IN.real_end, "geometry untouched");
@@ -1701,5 +1839,21 @@ void h_rb_resize(void)
 	if (NN == RB_N && IN.arg > IN.end && IN.arg2 > IN.arg && IN.es[RB_N - 1] + IN.ec[RB_N - 1] - 1 == IN.real_end - IN.start && IN.end < IN.real_end) REACH("grow, old padding present");
 #endif
 	if (IN.arg > IN.end) REACH("grow");
+	REACH("end");
+}
+
+/* ---- lib/ext2fs/rbtree.c itself: ext2fs_rb_erase / ext2fs_rb_insert_color on every red-black tree of RB_N nodes ---- */
+void h_rbtree_erase(void)
+{
+	build_rb();
+	ASSUME(IN.num < RB_N);
+	struct bmap_rb_extent *victim = ND[IN.num];
+	BP->wcursor = BP->rcursor = BP->rcursor_next = 0;
+	ext2fs_rb_erase(&victim->node, &BP->root);
+	CHECK_TREE("rb_erase");
+	CHECK(WN == RB_N - 1, "rb_erase: one node fewer");
+	for (int i = 0; i < RB_N; i++)
+		if (i < WN)
+			CHECK(W[i] == ND[i < (int)IN.num ? i : i + 1], "rb_erase: the in-order sequence is the old one without the victim");
 	REACH("end");
 }
